@@ -72,3 +72,43 @@ Example witness_unfiltered_lucky :
   seq_match (verify_hd 11) (seq 0 4)
     (assemble false 3 1 [Some (1, mkSg 0 11); Some (1, mkSg 1 11); Some (1, mkSg 2 11); Some (0, mkSg 3 10)]) = true.
 Proof. vm_compute. reflexivity. Qed.
+
+(* EVERY subset of the current-view commits, taken in validator order, is a witness that passes the check: the in-order
+   matching exists for any selection of rows.  Which validator's copy of a block reaches a ledger — each completed from the M
+   commits that validator happened to hold — cannot matter for its acceptance. *)
+Lemma picked_sel_matching cur h : forall (t : table) (sel : list bool) i,
+  (forall j v s, nth_error t j = Some (Some (v, s)) -> signer s = (i + j)%nat /\ (v = cur -> over s = h)) ->
+  matching (verify_hd h) (seq i (length t)) (picked_sel cur sel t) /\
+  (forall s, In s (picked_sel cur sel t) -> over s = h).
+Proof.
+  induction t as [|e t IH]; intros sel i Hok.
+  - destruct sel; simpl; (split; [apply m_nil|intros s []]).
+  - destruct sel as [|b sel]; [simpl; split; [apply m_nil|intros s []]|].
+    assert (Hok' : forall j v s, nth_error t j = Some (Some (v, s)) -> signer s = (S i + j)%nat /\ (v = cur -> over s = h)).
+    { intros j v s Hj. destruct (Hok (S j) v s Hj) as [H1 H2]. split; [lia|assumption]. }
+    destruct (IH sel (S i) Hok') as [IHm IHo]. unfold picked_sel in *. simpl.
+    destruct b; [|split; [apply m_skip; assumption|assumption]].
+    destruct e as [[v s]|]; simpl; [|split; [apply m_skip; assumption|assumption]].
+    destruct (v =? cur) eqn:Ev; simpl; [|split; [apply m_skip; assumption|assumption]].
+    apply N.eqb_eq in Ev. destruct (Hok 0%nat v s eq_refl) as [H1 H2]. specialize (H2 Ev). split.
+    + apply m_use; [|assumption]. unfold verify_hd. rewrite H1, H2, Nat.add_0_r, Nat.eqb_refl, N.eqb_refl. reflexivity.
+    + intros s0 [<-|Hin]; auto.
+Qed.
+
+Theorem any_current_view_quorum_witness_valid cur h (t : table) (sel : list bool) :
+  table_ok cur h t ->
+  let w := picked_sel cur sel t in
+  (forall s, In s w -> over s = h) /\ seq_match (verify_hd h) (seq 0 (length t)) w = true.
+Proof.
+  intros Hok w. destruct (picked_sel_matching cur h t sel 0%nat) as [Hm Ho].
+  { intros j v s Hj. destruct (Hok j v s Hj). split; [lia|assumption]. }
+  split; [assumption|]. apply seq_match_iff_matching. assumption.
+Qed.
+
+(* seven validators, M = 5, everybody committed in view 0 over header 10: the first five and the last five both pass *)
+Example two_subsets_both_valid :
+  let t := map (fun i => Some (0, mkSg i 10)) (seq 0 7) in
+  seq_match (verify_hd 10) (seq 0 7) (picked_sel 0 [true; true; true; true; true; false; false] t) = true /\
+  seq_match (verify_hd 10) (seq 0 7) (picked_sel 0 [false; false; true; true; true; true; true] t) = true /\
+  picked_sel 0 [true; true; true; true; true; false; false] t <> picked_sel 0 [false; false; true; true; true; true; true] t.
+Proof. vm_compute. repeat split; try reflexivity. discriminate. Qed.
